@@ -15,9 +15,9 @@ open PlasVerif.Model.Context PlasVerif.Model.Catcodes PlasVerif.Spec.Balanced Pl
     every (non-document) object: after `push o; body; pop o` the stack is the one before the
     group, except for definitions `g` added to the global frame, and each of those has a
     global-source operation (a global definition, or a lookup miss) in the body. -/
-theorem group_restores (o : Option ObjRef) (locals : List (Nat × Val)) (body : List Op)
-    (hb : Balanced body) (ho : notDoc o = true) (c : Ctx) (hc : c ≠ []) :
-    ∃ g, run (Op.push o locals :: (body ++ [Op.pop o])) c = extG g c ∧
+theorem group_restores (o o' : Option ObjRef) (locals : List (Nat × Val)) (body : List Op)
+    (hb : Balanced body) (ho : notDoc o = true) (hcl : closes o o' = true) (c : Ctx) (hc : c ≠ []) :
+    ∃ g, run (Op.push o locals :: (body ++ [Op.pop o'])) c = extG g c ∧
       ∀ x ∈ g, ∃ op ∈ body, globalSource x.1 op = true := by
   cases c with
   | nil => exact absurd rfl hc
@@ -32,11 +32,17 @@ theorem group_restores (o : Option ObjRef) (locals : List (Nat × Val)) (body : 
         fb :: extG gb (f :: t) := h1
     rw [this]
     simp only [List.foldl]
-    exact pop_own_frame o fb _ e1 (extG_ne_nil gb (f :: t) (by simp))
+    exact pop_own_frame o o' fb _ e1 hcl (extG_ne_nil gb (f :: t) (by simp))
 
 /-- non-vacuity: `{ \def\a{..} \catcode`\@=11 \let\b=x  \undefined }` inside an environment frame -/
 example : Balanced [Op.push none [], .addLocal 1 (.defn 5), .setCat 64 11, .letTok 2 120, .lookup 3, .pop none] :=
-  .group none [] _ [] rfl (.op _ _ rfl (.op _ _ rfl (.op _ _ rfl (.op _ _ rfl .nil)))) .nil
+  .group none none [] _ [] rfl rfl (.op _ _ rfl (.op _ _ rfl (.op _ _ rfl (.op _ _ rfl .nil)))) .nil
+
+/-- non-vacuity for object frames: `\\begin{foo}` (object 1) is closed by its `\\end{foo}` instance (object 3: same class,
+    end mode), and a `\\bar` frame by a macro named `\\endbar` -/
+example : closes (some ⟨1, 0, 1, false, [102, 111, 111], false⟩) (some ⟨3, 0, 1, true, [102, 111, 111], false⟩) = true ∧
+    closes (some ⟨2, 1, 2, false, [98, 97, 114], false⟩) (some ⟨4, 0, 4, false, [101, 110, 100, 98, 97, 114], false⟩) = true := by
+  decide
 
 /-- **The stack is balanced**: after any balanced history the depth is what it was. -/
 theorem depth_balanced (ops : List Op) (hb : Balanced ops) (c : Ctx) (hc : c ≠ []) :
@@ -48,27 +54,27 @@ theorem depth_balanced (ops : List Op) (hb : Balanced ops) (c : Ctx) (hc : c ≠
     rw [h]; simp [extG_length]
 
 /-- **Category codes are local**: after the group every character has the category it had before. -/
-theorem catcode_local (o : Option ObjRef) (locals : List (Nat × Val)) (body : List Op)
-    (hb : Balanced body) (ho : notDoc o = true) (c : Ctx) (hc : c ≠ []) (ch : Nat) :
-    whichCodeCtx (run (Op.push o locals :: (body ++ [Op.pop o])) c) ch = whichCodeCtx c ch := by
-  obtain ⟨g, h, _⟩ := group_restores o locals body hb ho c hc
+theorem catcode_local (o o' : Option ObjRef) (locals : List (Nat × Val)) (body : List Op)
+    (hb : Balanced body) (ho : notDoc o = true) (hcl : closes o o' = true) (c : Ctx) (hc : c ≠ []) (ch : Nat) :
+    whichCodeCtx (run (Op.push o locals :: (body ++ [Op.pop o'])) c) ch = whichCodeCtx c ch := by
+  obtain ⟨g, h, _⟩ := group_restores o o' locals body hb ho hcl c hc
   rw [h, whichCodeCtx, cats_extG]; rfl
 
 /-- **`\let` aliases of tokens are local.** -/
-theorem let_local (o : Option ObjRef) (locals : List (Nat × Val)) (body : List Op)
-    (hb : Balanced body) (ho : notDoc o = true) (c : Ctx) (hc : c ≠ []) (n : Nat) :
-    getLet n (run (Op.push o locals :: (body ++ [Op.pop o])) c) = getLet n c := by
-  obtain ⟨g, h, _⟩ := group_restores o locals body hb ho c hc
+theorem let_local (o o' : Option ObjRef) (locals : List (Nat × Val)) (body : List Op)
+    (hb : Balanced body) (ho : notDoc o = true) (hcl : closes o o' = true) (c : Ctx) (hc : c ≠ []) (n : Nat) :
+    getLet n (run (Op.push o locals :: (body ++ [Op.pop o'])) c) = getLet n c := by
+  obtain ⟨g, h, _⟩ := group_restores o o' locals body hb ho hcl c hc
   rw [h, getLet_extG]
 
 /-- **Definitions are local**: a name that the body neither defines globally nor looks up while
     undefined means after the group exactly what it meant before — whatever local definitions,
     aliases or redefinitions of it the body made at any depth. -/
-theorem def_local (o : Option ObjRef) (locals : List (Nat × Val)) (body : List Op)
-    (hb : Balanced body) (ho : notDoc o = true) (c : Ctx) (hc : c ≠ []) (n : Nat)
+theorem def_local (o o' : Option ObjRef) (locals : List (Nat × Val)) (body : List Op)
+    (hb : Balanced body) (ho : notDoc o = true) (hcl : closes o o' = true) (c : Ctx) (hc : c ≠ []) (n : Nat)
     (hn : ∀ op ∈ body, globalSource n op = false) :
-    find n (run (Op.push o locals :: (body ++ [Op.pop o])) c) = find n c := by
-  obtain ⟨g, h, hs⟩ := group_restores o locals body hb ho c hc
+    find n (run (Op.push o locals :: (body ++ [Op.pop o'])) c) = find n c := by
+  obtain ⟨g, h, hs⟩ := group_restores o o' locals body hb ho hcl c hc
   rw [h]
   apply find_extG
   intro x hx hxn
@@ -104,9 +110,9 @@ theorem local_shadows_global (n : Nat) (v w : Val) (f : Frame) (c : Ctx) (hc : c
 
 /-- **Closing a group pops exactly the frame its opening pushed** (none of the four matching
     rules of `pop` fires on a foreign frame in a balanced history). -/
-theorem pop_obj_exact (o : Option ObjRef) (locals : List (Nat × Val)) (body : List Op)
-    (hb : Balanced body) (ho : notDoc o = true) (c : Ctx) (hc : c ≠ []) :
-    ∃ fb, run (Op.push o locals :: body) c = fb :: (pop o (run (Op.push o locals :: body) c)) ∧ fb.obj = o := by
+theorem pop_obj_exact (o o' : Option ObjRef) (locals : List (Nat × Val)) (body : List Op)
+    (hb : Balanced body) (ho : notDoc o = true) (hcl : closes o o' = true) (c : Ctx) (hc : c ≠ []) :
+    ∃ fb, run (Op.push o locals :: body) c = fb :: (pop o' (run (Op.push o locals :: body) c)) ∧ fb.obj = o := by
   cases c with
   | nil => exact absurd rfl hc
   | cons f t =>
@@ -115,6 +121,6 @@ theorem pop_obj_exact (o : Option ObjRef) (locals : List (Nat × Val)) (body : L
     refine ⟨fb, ?_, e1⟩
     rw [run_cons]
     simp only [step]
-    rw [push_notDoc o locals (f :: t) ho, h1, pop_own_frame o fb _ e1 (extG_ne_nil gb (f :: t) (by simp))]
+    rw [push_notDoc o locals (f :: t) ho, h1, pop_own_frame o o' fb _ e1 hcl (extG_ne_nil gb (f :: t) (by simp))]
 
 end PlasVerif.Properties.C04
